@@ -214,6 +214,7 @@ class ResourceDomain(Domain):
         if yields:
             self.region_end(flow, s, call, "call of %s, which may yield" % (name or "a function pointer"))
             self._forget_memory(s)
+            flow.age_env(s, "L%s" % call.get("line"))
         elif writes:
             # an opaque callee that may write this class's state field: our facts about it are stale
             for k in [k for k in s.d if k[0] in ("nul",) and ("->" + self.info["field"]) in k[1]]:
